@@ -411,7 +411,33 @@ def write_replay(env, name, payload):
     return path
 
 
+INT_KEYS = ("evaluations", "distinct_nontrivial", "states", "transitions", "traces_validated_against_impl",
+            "obligations", "discharged", "programs", "disagreements_checked")
+
+
+def sanitize_coverage(cov):
+    """Keeps the evidence file valid against EVIDENCE.schema.json whatever a property module
+    put into `extra`: typed keys get their type, anything else moves to a *_note key."""
+    out = dict(cov)
+    for k in INT_KEYS:
+        if k in out and not (isinstance(out[k], int) and not isinstance(out[k], bool) and out[k] >= 0):
+            out[k + "_note"] = out.pop(k)
+    if "exhaustive" in out and not isinstance(out["exhaustive"], bool):
+        out["exhaustive_note"] = out.pop("exhaustive")
+    for k in ("rule", "checker_cmd", "explanation"):
+        if k in out and not isinstance(out[k], str):
+            out[k] = json.dumps(out[k], ensure_ascii=False)
+    if "samples" in out and not isinstance(out["samples"], list):
+        out["samples"] = [out["samples"]]
+    if "trusted_base" in out:
+        tb = out["trusted_base"] if isinstance(out["trusted_base"], list) else [out["trusted_base"]]
+        out["trusted_base"] = [x if isinstance(x, str) else json.dumps(x, ensure_ascii=False) for x in tb]
+    return out
+
+
 def write_evidence(env, coverage, assumptions, violations):
+    coverage = sanitize_coverage(coverage)
+    assumptions = [a if isinstance(a, str) else json.dumps(a, ensure_ascii=False) for a in (assumptions or [])]
     ev = {
         "property_id": env.prop,
         "tier": env.tier,
